@@ -159,6 +159,20 @@ class Iter:
         return STOP
 
 
+class CountIter(Iter):
+    """itertools.count(start): an unbounded iterator (loops over it are cut by the unrolling limit)."""
+    def __init__(self, start=0, step=1):
+        Iter.__init__(self, [])
+        self.start, self.step = start, step
+
+    def __repr__(self):
+        return 'count(%r)@%d' % (self.start, self.pos)
+
+    def take(self):
+        self.pos += 1
+        return self.start + (self.pos - 1) * self.step
+
+
 for _k in (M.ClassInfo, M.FunctionInfo, M.ModuleInfo, M.External):
     _k.__deepcopy__ = lambda self, memo: self
 
@@ -210,6 +224,8 @@ def _freeze(v, _depth=0, _seen=None):
         return (type(v).__name__,) + tuple(_freeze(x, _depth, _seen) for x in v)
     if isinstance(v, (set, frozenset)):
         return ('set',) + tuple(sorted(map(repr, v)))
+    if isinstance(v, CountIter):
+        return ('count', v.start, v.step, v.pos)
     if isinstance(v, Iter):
         return ('iter', v.pos, _freeze(v.items, _depth, _seen))
     if isinstance(v, TextObj):
@@ -259,6 +275,7 @@ NONE = Sym('<<python-None>>')      # a hook answers a call with the value None
 class Interp:
     def __init__(self, model=None, scope=None, hooks=None, max_iter=1,
                  max_states=40000, exc_edges=True, record_conds=False, inline=0, precise_exc=False, heap=False, generators=False):
+        self.max_unroll = 70
         self.generators = generators    # interpret calls of generator helpers eagerly (their value is an iterator over the yields)
         self.heap = heap                # instantiating a repository class gives a mutable Obj instead of an Inst
         self.precise_exc = precise_exc  # exceptions only where one can occur: failed lookups on known containers, unknown calls
@@ -362,6 +379,16 @@ class Interp:
             inl = self.inline(n.value, s)
             if inl is not None:
                 return {'fall': [(s2, None) for s2, v in inl]}
+        if isinstance(n.value, ast.YieldFrom) and isinstance(n.value.value, ast.Call) and self.generators \
+           and any(k.startswith('__yields@') for k in s.env):
+            # `yield from helper(...)`: the helper's yields are the yields of this generator, in place
+            self._share_yields = True
+            try:
+                inl = self.inline(n.value.value, s)
+            finally:
+                self._share_yields = False
+            if inl is not None:
+                return {'fall': [(s2, None) for s2, v in inl]}
         for s2, v in self.expr(n.value, s):
             if isinstance(n.value, ast.Call):
                 self._invalidate_call(n.value, s2)
@@ -397,8 +424,15 @@ class Interp:
     def st_Assign(self, n, s):
         outs = []
         call = self._as_call(n.value, s)
+        if call is None and isinstance(n.value, ast.YieldFrom) and isinstance(n.value.value, ast.Call) and self.generators \
+           and any(k.startswith('__yields@') for k in s.env):
+            call = n.value.value          # x = yield from helper(...): the helper's yields are ours, x is its return value
+            self._share_yields = True
         if call is not None:
-            inl = self.inline(call, s)
+            try:
+                inl = self.inline(call, s)
+            finally:
+                self._share_yields = False
             if inl is not None:
                 for s2, v in inl:
                     for t in n.targets:
@@ -665,8 +699,12 @@ class Interp:
         concrete_items = None
         if is_for and isinstance(iterable, (list, tuple)) and is_concrete(iterable) and len(iterable) <= 64:
             concrete_items = list(iterable)
-        elif is_for and isinstance(iterable, range) and len(iterable) <= 64:
+        elif is_for and isinstance(iterable, range) and len(iterable) <= 256:
             concrete_items = list(iterable)
+        elif is_for and isinstance(iterable, str) and not isinstance(iterable, M._StringLetters) and len(iterable) <= 256:
+            concrete_items = list(iterable)
+        elif is_for and isinstance(iterable, dict) and len(iterable) <= 64 and all(_plain(k) for k in iterable):
+            concrete_items = list(iterable.keys())
         k = 0
         while cur:
             bound = (max(len(concrete_items), 64 if isinstance(iterable, list) else 0) if concrete_items is not None else self.max_iter)
@@ -734,7 +772,7 @@ class Interp:
                     outs.setdefault(kind, []).extend(lst)
             cur = self._merge(cur)
             k += 1
-            if k > 70:
+            if k > self.max_unroll:
                 raise AnalysisError('loop unrolling runaway at line %s' % n.lineno)
         exits = self._merge(exits)
         if n.orelse and exits:
@@ -1064,8 +1102,9 @@ class Interp:
         if flt is not None and not flt(fname, node, info):
             return None
         is_gen = any(isinstance(x, (ast.Yield, ast.YieldFrom)) for x in M.walk_no_nested(node))
+        share_yields, self._share_yields = getattr(self, '_share_yields', False), False
         if (node in self._inline_stack and receiver is None and not self.heap) or self._inline_stack.count(node) >= 4 \
-           or any(isinstance(x, ast.YieldFrom) for x in M.walk_no_nested(node)) or (is_gen and not self.generators):
+           or (is_gen and not self.generators):
             if self.heap:
                 self.imprecise.append('recursive helper %s not interpreted (line %s)' % (fname, getattr(call, 'lineno', '?')))
             return None
@@ -1120,6 +1159,8 @@ class Interp:
                         cs.env.setdefault(kk, vv)
         cs.env.update(local)
         ykey = '__yields@%d' % len(self._inline_stack)
+        if is_gen and share_yields:
+            is_gen = False              # its yields go to the enclosing generator's list (ev_Yield picks the innermost list)
         if is_gen:
             cs.env[ykey] = []           # a generator function: interpreted eagerly, its call yields an iterator over the values
         ckey = '__caller@%d' % len(self._inline_stack)
@@ -1333,7 +1374,7 @@ class Interp:
             if n.id not in self._locals():
                 r = self.model.resolve_name(self.scope, n.id)
                 v = self._from_model(r)
-                if v is TOP and n.id in _BUILTIN_TYPES:
+                if n.id in _BUILTIN_TYPES and (v is TOP or (isinstance(v, M.External) and v.name in (n.id, 'builtins.' + n.id))):
                     return _BUILTIN_TYPES[n.id]
                 return v
         if n.id in _BUILTIN_TYPES:
@@ -1374,6 +1415,10 @@ class Interp:
             rhs = r[2][-1]
             if isinstance(rhs, ast.Call) and _text(rhs) == 'object()':
                 return Sym('sentinel@%d' % rhs.lineno, truthy=True, attrs={'distinct': True})
+            if any(isinstance(x, ast.Call) and _text(x.func) == 're.compile' for x in ast.walk(rhs)):
+                v = self._const_obj(rhs, r[1])
+                if v is not TOP:
+                    return v
             v = self.model.eval_const(r[1], rhs)
             return TOP if M.is_unknown(v) else v
         return r
@@ -1417,6 +1462,57 @@ class Interp:
                 return res[0] if res is not None else TOP
         return self.getattr(base, n.attr, n, s)
 
+    def _const_obj(self, node, scope):
+        """Value of a constant expression that may contain re.compile(<constants>) inside tuples / lists / dicts."""
+        if isinstance(node, ast.Call) and _text(node.func) == 're.compile' and node.args and not node.keywords:
+            cargs = [self.model.eval_const(scope, a) for a in node.args]
+            if isinstance(cargs[0], str) and all(isinstance(a, (str, int)) and not isinstance(a, bool) for a in cargs):
+                try:
+                    return _re_mod.compile(*cargs)
+                except Exception:
+                    return TOP
+            return TOP
+        if isinstance(node, (ast.Tuple, ast.List)):
+            items = [self._const_obj(e, scope) for e in node.elts]
+            if any(x is TOP for x in items):
+                return TOP
+            return tuple(items) if isinstance(node, ast.Tuple) else items
+        if isinstance(node, ast.Dict) and all(k is not None for k in node.keys):
+            ks = [self._const_obj(k, scope) for k in node.keys]
+            vs = [self._const_obj(v, scope) for v in node.values]
+            if any(x is TOP for x in ks + vs):
+                return TOP
+            try:
+                return dict(zip(ks, vs))
+            except TypeError:
+                return TOP
+        v = self.model.eval_const(scope, node)
+        return TOP if M.is_unknown(v) else v
+
+    def _class_level_object(self, cls, attr):
+        """A class attribute bound to a library object built from constants (a compiled pattern)."""
+        owner = self.model.find_attr_class(cls, attr)
+        if owner is not None and attr in owner.assigns:
+            rhs = owner.assigns[attr][-1]
+            v = self._from_model(('assign', owner, [rhs]))
+            if v is TOP and isinstance(rhs, (ast.Call, ast.Tuple, ast.List, ast.Dict)) and not getattr(self, '_in_class_eval', False):
+                # a table built in the class body (e.g. compiled patterns made by a comprehension): constant evaluation
+                saved = (self.scope, getattr(self, '_locals_cache', None), self.h)
+                self._in_class_eval = True
+                try:
+                    self.scope, self.h = owner, Hooks()
+                    self._locals_cache = None
+                    r = self.ev(rhs, State({}))
+                    if r is not TOP and not isinstance(r, Sym):
+                        v = r if not isinstance(r, Iter) else list(r.items)
+                except Exception:
+                    v = TOP
+                finally:
+                    self.scope, self._locals_cache, self.h = saved
+                    self._in_class_eval = False
+            return v
+        return TOP
+
     def getattr(self, base, attr, n, s):
         m = self.model
         if isinstance(base, Inst) and isinstance(base.cls, M.ClassInfo) and m is not None:
@@ -1431,7 +1527,9 @@ class Interp:
                 return base.attrs[attr]
             if isinstance(base.cls, M.ClassInfo) and m is not None:
                 v = m.class_const(base.cls, attr)
-                return TOP if M.is_unknown(v) else v
+                if M.is_unknown(v):
+                    return self._class_level_object(base.cls, attr)
+                return v
             return TOP
         if isinstance(base, Sym):
             if attr in base.attrs:
@@ -1445,15 +1543,21 @@ class Interp:
                 v = m.class_const(base, attr)
                 if not M.is_unknown(v):
                     return v
+                o = self._class_level_object(base, attr)
+                if o is not TOP:
+                    return o
             r = m.getattr_static(base, attr)
             return self._from_model(r)
-        if isinstance(base, M.External) and base.name in ('re', 'operator', 'os', 'os.path', 'glob', 'posixpath') and not attr.startswith('_'):
+        if isinstance(base, M.External) and base.name in ('re', 'operator', 'os', 'os.path', 'glob', 'posixpath', 'string', 'itertools') and not attr.startswith('_') \
+           and not (base.name == 'string' and attr != 'Template'):
             return M.External('%s.%s' % (base.name, attr))
         if isinstance(base, M.External) and base.name == 'string' and attr in ('digits', 'ascii_letters', 'ascii_lowercase', 'ascii_uppercase',
                                                                               'hexdigits', 'octdigits', 'punctuation', 'whitespace'):
             import string as _string
             return getattr(_string, attr)
         if isinstance(base, str) and not attr.startswith('_') and callable(getattr(str, attr, None)):
+            return ('boundmethod', base, attr)
+        if isinstance(base, _REAL_TYPES) and not attr.startswith('_') and callable(getattr(base, attr, None)):
             return ('boundmethod', base, attr)
         if isinstance(base, (list, dict)) and attr in ('append', 'extend', 'insert', 'pop', 'copy', 'keys', 'values', 'items', 'get', 'update', 'clear', 'index', 'remove', 'reverse', 'setdefault'):
             return ('boundmethod', base, attr)
@@ -1643,6 +1747,9 @@ class Interp:
         keys = [k for k in s.env if k.startswith('__yields@')]
         if keys:
             s.env[max(keys, key=lambda k: int(k.split('@')[1]))].append(v)
+        oy = getattr(self.h, 'on_yield', None)
+        if oy is not None and oy(self, v, s) is STOP:
+            s.env['__exc'] = 'GeneratorExit'       # the consumer stops asking: the generator is closed here
         self.emit(s, ('yield', v if (is_concrete(v) or _known(v)) else _text(n.value), n.lineno))
         return TOP
 
@@ -1825,6 +1932,9 @@ class Interp:
             res = self._inline_single(n, s)
             if res is not None:
                 return res[0]
+        if fname == 'isinstance' and 'isinstance' not in s.env and len(args) == 2 and _plain(args[0]) \
+           and (isinstance(args[1], type) or (isinstance(args[1], tuple) and args[1] and all(isinstance(t, type) for t in args[1]))):
+            return isinstance(args[0], args[1])
         if self.heap and fname in ('setattr', 'getattr', 'delattr', 'hasattr') and fname not in s.env and len(args) >= 2 \
            and isinstance(args[0], (Obj, TextObj)) and isinstance(args[1], str):
             o, nm = args[0], args[1]
@@ -1868,7 +1978,7 @@ class Interp:
                     s.env['__exc'] = 'AttributeError'
                 return TOP
         if fname == 'iter' and 'iter' not in s.env and len(args) == 1 and not kwargs:
-            if isinstance(args[0], (list, tuple)):
+            if isinstance(args[0], (list, tuple)) or (isinstance(args[0], str) and not isinstance(args[0], M._StringLetters)):
                 return Iter(args[0])
             if isinstance(args[0], Iter):
                 return args[0]
@@ -1887,12 +1997,16 @@ class Interp:
             if isinstance(rr, tuple) and rr[0] == 'assign' and isinstance(rr[2][-1], ast.Call) \
                and _text(rr[2][-1].func).endswith('NewType'):
                 return args[0]
-        if isinstance(fval, M.External) and fval.name == 're.sub' and len(args) in (3, 4) and all(isinstance(a, (str, int)) for a in args) \
-           and all(isinstance(v, int) for v in kwargs.values()):
-            import re as _re
+        if isinstance(fval, M.External) and fval.name in ('itertools.count', 'count') and all(isinstance(a, int) for a in args) and len(args) <= 2 and not kwargs:
+            return CountIter(*args)
+        if isinstance(fval, M.External) and fval.name in ('re.sub', 're.findall', 're.split', 're.compile', 're.escape', 'string.Template') \
+           and args and all(_plain(a) for a in args) and all(_plain(v) for v in kwargs.values()):
             try:
-                return _re.sub(*args, **kwargs)
-            except Exception:
+                f = getattr(_re_mod, fval.name[3:]) if fval.name.startswith('re.') else _string_mod.Template
+                return f(*args, **kwargs)
+            except Exception as e:
+                if self.precise_exc:
+                    s.env['__exc'] = type(e).__name__
                 return TOP
         if isinstance(fval, M.External) and fval.name in ('os.path.join', 'os.path.basename', 'os.path.dirname', 'os.path.splitext', 'os.path.split',
                                                           'os.path.normpath') and args and all(isinstance(a, str) for a in args) and not kwargs:
@@ -1949,6 +2063,15 @@ class Interp:
 
     def _builtin_method(self, recv, meth, args, kwargs):
         if isinstance(recv, M._StringLetters):
+            return TOP
+        if isinstance(recv, _REAL_TYPES):
+            # methods of library objects built from constants (compiled patterns, string templates): the library's own semantics
+            if all(_plain(a) for a in args) and all(_plain(v) for v in kwargs.values()):
+                try:
+                    return getattr(recv, meth)(*args, **kwargs)
+                except Exception as e:
+                    self._pending_exc = type(e).__name__
+                    return TOP
             return TOP
         if isinstance(recv, str):
             if all(is_concrete(a) for a in args) and not kwargs:
@@ -2018,6 +2141,22 @@ class Interp:
 
 _NOTHROW = {'log', 'logging', 'status', 'stacklog', 'macrolog', 'tokenlog', 'digestlog', 'grouplog', 'deflog', 'warnings'}
 _NOTHROW_CALLS = {'isinstance', 'issubclass', 'type', 'id', 'len', 'repr', 'str', 'hasattr', 'callable', 'print'}
+
+import re as _re_mod
+import string as _string_mod
+_REAL_TYPES = (_re_mod.Pattern, _string_mod.Template)
+
+
+def _plain(v):
+    """A value made only of Python constants (safe to hand to a library function)."""
+    if isinstance(v, (str, int, float, bool, type(None))) and not isinstance(v, (TextObj, TokStr, M._StringLetters)):
+        return True
+    if isinstance(v, (list, tuple)):
+        return all(_plain(x) for x in v)
+    if isinstance(v, dict):
+        return all(_plain(k) and _plain(x) for k, x in v.items())
+    return False
+
 
 _BUILTIN_TYPES = {'str': str, 'int': int, 'float': float, 'list': list, 'dict': dict, 'tuple': tuple, 'bool': bool, 'bytes': bytes,
                   'set': set, 'frozenset': frozenset, 'object': object, 'slice': slice}
